@@ -26,7 +26,7 @@ import itertools
 from checks import c17_rfc
 from harness import core, rng, runner, tree
 
-PROP_MODULES = ["AQ.Props.C17", "AQ.Props.C17tls", "AQ.Props.C17frames", "AQ.Props.C17hdr"]
+PROP_MODULES = ["AQ.Props.C17", "AQ.Props.C17tls", "AQ.Props.C17frames", "AQ.Props.C17hdr", "AQ.Props.C17ack"]
 P62 = 1 << 62
 P64 = 1 << 64
 V1 = 1
@@ -305,6 +305,62 @@ def oracle_ack(case, out):
             return (f"{case[2]!r}: got {out[2]!r}, expected {want!r}", {"kind": "ack-roundtrip"})
         if out[3] != want:
             return (f"{case[3]!r} (trailing byte): got {out[3]!r}, expected {want!r}", {"kind": "ack-roundtrip"})
+    return None
+
+
+def ack_budget_cases(impl, universe, bases, thorough):
+    """push_ack_frame(…, max_size): every range set over `universe` consecutive packet numbers x every budget
+    from 0 to one more than the full frame (so every boundary at which one more range fits is hit)"""
+    for base in bases:
+        for rs in subsets_as_ranges(universe, base):
+            full = impl.step(f"codec.ack_pushm {fmt_ranges(rs)} 3 64 none")
+            total = len(full.split()[2]) // 2 if full.startswith("ok ") else 12
+            budgets = list(range(0, total + 2))
+            if not thorough and len(rs) > 2:
+                budgets = budgets[::2] + [total - 1, total]
+            for delay in ((3,) if base == 0 else (3, 70)):
+                yield [f"codec.ack_pushm {fmt_ranges(rs)} {delay} 64 {m}" for m in sorted(set(budgets))] + \
+                      [f"codec.ack_pushm {fmt_ranges(rs)} {delay} 64 none", f"codec.ack_pushm {fmt_ranges(rs)} {delay} 3 4"]
+
+
+def oracle_ack_budget(case, out):
+    """independent RFC 9000 §19.3 reader on the implementation's output: the frame is self-consistent (ACK Range
+    Count = ranges carried), carries the most recent ranges (a suffix of the set, at least the newest), as many as
+    the budget allows, and stays within the budget whenever more than the mandatory newest range is written"""
+    for op, o in zip(case, out):
+        t = op.split()
+        rs = [tuple(int(x) for x in tok.split(":")) for tok in t[1].split(",")]
+        delay, cap, mx = int(t[2]), int(t[3]), (None if t[4] == "none" else int(t[4]))
+        if not o.startswith("ok "):
+            if cap >= 64:
+                return (f"{op!r} raised {o!r}", {"kind": "ack-budget-raise"})
+            continue
+        n = int(kv(o)["n"])
+        data = bytes.fromhex(o.split()[2])
+        dec = c17_rfc.rfc_ack_decode(data)
+        if dec is None or dec[2] != len(data):
+            return (f"{op!r} wrote {data.hex()}: an RFC 9000 §19.3 reader finds the ACK Range Count inconsistent with "
+                    f"the ranges carried ({dec})", {"kind": "ack-budget-count"})
+        got = [tuple(int(x) for x in tok.split(":")) for tok in dec[0].split(",")]
+        if got != rs[len(rs) - len(got):] or len(got) != n or dec[1] != delay or not got:
+            return (f"{op!r} wrote {data.hex()} = ranges {got} (returned n={n}); expected the {n} most recent of {rs}",
+                    {"kind": "ack-budget-suffix"})
+        if mx is None:
+            if len(got) != len(rs):
+                return (f"{op!r}: ranges dropped without a budget", {"kind": "ack-budget-suffix"})
+            continue
+        if len(got) > 1 and len(data) > mx:
+            return (f"{op!r} wrote {len(data)} bytes for a budget of {mx}", {"kind": "ack-budget-exceeded"})
+        if len(got) < len(rs):
+            # one more (older) range must not have fitted: RFC-encode the longer suffix and measure it
+            more = rs[len(rs) - len(got) - 1:]
+            enc = rfc_varint_encode(more[-1][1] - 1) + rfc_varint_encode(delay) + rfc_varint_encode(len(rs) - 1) + \
+                rfc_varint_encode(more[-1][1] - 1 - more[-1][0])
+            for i in range(len(more) - 2, -1, -1):
+                enc += rfc_varint_encode(more[i + 1][0] - more[i][1] - 1) + rfc_varint_encode(more[i][1] - more[i][0] - 1)
+            if len(enc) <= mx:
+                return (f"{op!r} dropped a range that fits: {len(got)} of {len(rs)} written, {len(got) + 1} need "
+                        f"{len(enc)} <= {mx} bytes", {"kind": "ack-budget-not-maximal"})
     return None
 
 
@@ -774,7 +830,7 @@ def _replay_codec(path):
     impl = CodecImpl()
     oracles = {
         "int-roundtrip": oracle_int, "size": oracle_size, "int-decode-prefixes": oracle_varint_decode,
-        "ack-roundtrip": oracle_ack, "ack-capacity": oracle_ack, "ack-decode": oracle_ack_decode(impl, {}),
+        "ack-roundtrip": oracle_ack, "ack-capacity": oracle_ack, "ack-budget": oracle_ack_budget, "ack-decode": oracle_ack_decode(impl, {}),
         "header-roundtrip": oracle_header, "header-decode": oracle_header_fuzz, "tp-subsets": oracle_tp,
         "tp-declared-length": oracle_tp_decode(impl), "tp-decode": oracle_tp_decode(impl),
     }
@@ -851,6 +907,10 @@ def main(tier):
     cases = list(ack_cases(impl, 4, [0, 100], [5], caps=range(0, 12)))
     run("ack-capacity", cases, oracle_ack)
     run("ack-illformed", list(ack_illformed_cases()))
+    cases = list(ack_budget_cases(impl, 9 if thorough else 7, [0] if not thorough else [0, 58, 16380], thorough))
+    cases += list(ack_budget_cases(impl, 4, [60, 16380, P62 - 5], True))
+    run("ack-budget", cases, oracle_ack_budget, lambda c, o: any(" n=1 " not in x for x in o))
+    ctx.sample({"ack-budget": cases[100][:4]})
     cases = list(ack_decode_cases(r, 3000 if not thorough else 100000, thorough))
     run("ack-decode", cases, oracle_ack_decode(impl, ctx.notes), lambda c, o: any(x.startswith("ok ") for x in o))
     ctx.sample({"ack-decode": cases[70000 % len(cases)]})
